@@ -135,7 +135,9 @@ def pipe_case(c):
 
     def work(comm):
         warnings.simplefilter('ignore')
-        S = simdriver.Sim(comm, npts, nprocs)
+        # every other shape runs with constants whose ion / electron / density profile constants all differ
+        distinct = (npts[0] + npts[1]) % 2 == 1
+        S = simdriver.Sim(comm, npts, nprocs, extra=dict(simdriver.DISTINCT_CONSTANTS) if distinct else None)
         f = S.f
         if electrons != 'chi0':
             from pygyro.poisson.poisson_solver import QuasiNeutralitySolver
@@ -198,6 +200,26 @@ def pipe_case(c):
                              'nunk': int(Q._nUnknowns), 'colloc': C, 'greville': np.array(bs.greville, copy=True), 'r': r,
                              'mats': {k: getattr(Q, k).toarray() for k in ('_massMatrix', '_k2PhiPsi', '_PhiPsi', '_dPhidPsi', '_dPhiPsi', '_stiffnessMatrix', '_stiffness0')},
                              'table': np.array(S.density._fEq, copy=True)}
+            # the quasi-neutrality equation the solver is configured with: a plain DiffEqSolver given the coefficient
+            # functions of the documented equation, written out from the constants (closed forms, no call into initialiser_funcs):
+            #   -phi'' - (1/r + n0'/n0) phi' + phi/Te + m^2 phi/r^2 = rho/n0 (adiabatic electrons; without them no phi/Te term)
+            from pygyro.poisson.poisson_solver import DiffEqSolver
+            c0 = S.constants
+
+            def n0_(r):
+                return c0.CN0 * np.exp(-c0.kN0 * c0.deltaRN0 * np.tanh((r - c0.rp) / c0.deltaRN0))
+
+            def te_(r):
+                return c0.CTe * np.exp(-c0.kTe * c0.deltaRTe * np.tanh((r - c0.rp) / c0.deltaRTe))
+
+            def dn_(r):
+                return -c0.kN0 * (1.0 - np.tanh((r - c0.rp) / c0.deltaRN0) ** 2)
+            kw = dict(drFactor=lambda r: -(1 / r + dn_(r)), ddThetaFactor=lambda r: -1 / r ** 2, rhoFactor=lambda r: 1.0 / n0_(r), lNeumannIdx=[0])
+            if electrons != 'kinetic':
+                kw['rFactor'] = lambda r: 1.0 / te_(r)
+            ref = DiffEqSolver(7, f.getSpline(0), npts[0], npts[1], **kw)
+            out['solver']['ref_mats'] = {k: getattr(ref, k).toarray() for k in ('_massMatrix', '_k2PhiPsi', '_PhiPsi', '_dPhidPsi', '_dPhiPsi', '_stiffnessMatrix')}
+            out['solver']['constants'] = 'siblings-distinct' if distinct else 'defaults'
         return out
 
     try:
@@ -439,6 +461,16 @@ def run():
         if want not in matching:
             chk.violation(key + ':stiffness0-convention-' + el, '%s: _stiffness0 is the sum of %r of the stored matrices; the convention (model) is %r' % (el, matching, want),
                           {'kind': 'impl', 'case': case_l, 'matching_subsets': matching, 'model': want})
+        # the equation itself: every stored matrix is the one of the documented quasi-neutrality equation (electron temperature,
+        # density profile and its logarithmic derivative from the constants)
+        chk.count(('equation', tuple(npts), el, sol.get('constants')), stratum='qn-equation:%s:%s' % (el, sol.get('constants')))
+        for nm, rm in sorted(sol.get('ref_mats', {}).items()):
+            am = mats[nm]
+            dev = float(np.abs(am - rm).max()) if am.shape == rm.shape else float('inf')
+            if not dev <= 1e-12 * max(1.0, float(np.abs(rm).max())):
+                chk.violation(key + ':equation:' + nm.strip('_') + ':' + el, '%r (%s constants): the stored matrix %s differs from the one of the documented equation '
+                              '-phi\'\' - (1/r + n0\'/n0) phi\' %s+ m^2 phi/r^2 = rho/n0 by %.3g' % (c, sol.get('constants'), nm, '' if el == 'kinetic' else '+ phi/Te ', dev),
+                              {'kind': 'impl', 'case': case_l, 'matrix': nm, 'deviation': dev, 'constants': sol.get('constants')})
         if mats['_stiffness0'].shape != (mt['nunk'], mt['nunk']):
             chk.violation(key + ':stiffness0-shape', '_stiffness0 has shape %r, the mode-0 slice has %d unknowns' % (mats['_stiffness0'].shape, mt['nunk']), {'kind': 'impl', 'case': case_l})
         # the DFT laws on every transformed vector
